@@ -35,9 +35,13 @@ def sample(pattern, rng, flags=0, maxrep=3, ascii_only=False, tree=None, chooser
     tree = tree if tree is not None else sre_parse.parse(pattern, flags)
     out=[]
     def cat_char(av):
-        if av is sre_c.CATEGORY_DIGIT: return rng.choice("0123456789")
+        # str patterns are Unicode-aware: now and then a member that only a Unicode-aware class accepts
+        # (decimal digits of other scripts for \d; digits that int() rejects, letters, for \w)
+        if av is sre_c.CATEGORY_DIGIT:
+            return rng.choice("٣５") if (not ascii_only and rng.random() < 0.03) else rng.choice("0123456789")
         if av is sre_c.CATEGORY_SPACE: return rng.choice(" \t\n")
-        if av is sre_c.CATEGORY_WORD: return rng.choice("abcXYZ019_")
+        if av is sre_c.CATEGORY_WORD:
+            return rng.choice("²①٣éⅧ") if (not ascii_only and rng.random() < 0.15) else rng.choice("abcXYZ019_")
         if av is sre_c.CATEGORY_NOT_SPACE: return rng.choice("aZ9.,;" if ascii_only else "aZ9.,;§")
         if av is sre_c.CATEGORY_NOT_DIGIT: return rng.choice("aZ .,")
         if av is sre_c.CATEGORY_NOT_WORD: return rng.choice(" .,;-")
